@@ -1,5 +1,5 @@
 (* Props/C11.v — property C11: Normalize reorders any contract-abiding stream losslessly into sequential order. *)
-From CV Require Proofs.ReviewP2 Proofs.NormalizeP7.
+From CV Require Proofs.ReviewP2 Proofs.NormalizeP7 Proofs.ReviewP4.
 From CV Require Import Proofs.SchedP5.
 From CV Require Import Model.Base Model.Events Model.Contract Model.Normalize Proofs.BaseP Proofs.NormalizeP Proofs.NormalizeP2
   Proofs.NormalizeP3 Proofs.NormalizeP5 Proofs.NormalizeP6.
@@ -225,3 +225,36 @@ Example C11_head_liveness_is_discriminating :
   ReviewP2.RA.head_ok ReviewP2.RA.exA (ReviewP2.RA.lazy_out ReviewP2.RA.exA) = false /\
   ReviewP2.RA.head_ok ReviewP2.RA.exA (concat (nrun ReviewP2.RA.exA)) = true.
 Proof. vm_compute. split; reflexivity. Qed.
+
+
+(* ---------- ... INCLUDING THE CLOSING BRACKETS OF THE HEAD (second review, finding H1) ----------
+   The head is defined by "its Finished is not yet in the output", so a writer that WITHHOLDS a closing bracket of the head
+   keeps the head where it is, `head_item` / `head_attempt` become None and the three theorems above demand nothing more:
+   a writer that behaves like the model until the first Feature-Finished and then holds it and everything behind it until
+   run-Finished passes `head_ok` at every prefix (ReviewP4.RA2.stall_passes_head_ok_at_every_prefix). The obligations that
+   exclude it: for every contract-abiding prefix the closing bracket of the head feature / head rule HAS NOT BEEN RECEIVED
+   YET (so whenever it has been received and everything inside is finished in the output, it is in the output), and once
+   run-Finished has been received everything received is in the output. *)
+Theorem C11_head_closing_bracket_not_yet_received :
+  forall es : list mev, contract_prefix (map snd es) = true ->
+    let out := concat (nrun es) in
+    (forall f, ReviewP2.RA.head_feat es out = Some f -> ~ In (EvFeatF f) (map snd es)) /\
+    (forall f r, ReviewP2.RA.head_feat es out = Some f -> ReviewP2.RA.head_item f es out = Some (KRule r) ->
+       ~ In (EvRuleF f r) (map snd es)) /\
+    (In EvFinished (map snd es) -> forall x, In x es -> In x out).
+Proof. exact ReviewP4.RA2.head_closing_bracket_not_yet_received. Qed.
+Print Assumptions C11_head_closing_bracket_not_yet_received.
+
+Theorem C11_head_ok2_after_every_call :
+  forall (es : list mev) n, contract (map snd es) = true ->
+    ReviewP4.RA2.head_ok2 (firstn n es) (concat (firstn n (nrun es))) = true.
+Proof. exact ReviewP4.RA2.head_ok2_after_every_call. Qed.
+Print Assumptions C11_head_ok2_after_every_call.
+
+Theorem C11_head_ok2_says :
+  forall es out,
+    ReviewP4.RA2.head_ok2 es out = true <->
+    ReviewP2.RA.head_ok es out = true /\ ReviewP4.RA2.feat_close_P es out /\ ReviewP4.RA2.rule_close_P es out /\
+    ReviewP4.RA2.run_close_P es out.
+Proof. exact ReviewP4.RA2.head_ok2_spec. Qed.
+Print Assumptions C11_head_ok2_says.
